@@ -1,7 +1,8 @@
 //! Bounded stand-in / failing-input search for unit U1 (SlotMap) — NOT a proof.
 //! functions: SlotMap::bijection_from_fresh_to SlotMap::compose SlotMap::compose_fresh SlotMap::compose_partial SlotMap::contains_key SlotMap::from_pairs SlotMap::get SlotMap::identity SlotMap::index SlotMap::insert SlotMap::inverse SlotMap::is_bijection SlotMap::is_empty SlotMap::is_perm SlotMap::keys SlotMap::keys_vec SlotMap::len SlotMap::remove SlotMap::search SlotMap::try_union SlotMap::union SlotMap::values SlotMap::values_vec
 //! Placed into a scratch copy of the crate as `crate::verif_bounded` (never into /repo).
-//! Bound: all maps with at most 3 entries over keys/values $0..$3, arguments over $0..$4.
+//! Bound: all maps with at most 3 entries over keys/values $0..$3, arguments over $0..$4; 40 random operation sequences of length 60 over 16 keys;
+//! 12 (deep: 26) sizes between 11 and 257 (513) entries x 4 kinds of fixed-seed large maps, every operation.
 use crate::*;
 use std::collections::BTreeMap;
 
@@ -118,6 +119,77 @@ pub fn run(only: &[String]) -> Vec<String> {
                 }
             }
         }
+    }
+    // LARGE maps (a fast path may be switched on by size: SmallVec's inline capacity 10, std's small-sort cut-off 20, powers of two):
+    // fixed-seed random maps of 11 .. 257 entries over an alphabet four times their size (random, permutation and monotone
+    // maps), every operation against the BTreeMap reference (seed C19-h)
+    {
+        let mut seed: u64 = 0x1a26e_5eed;
+        let mut rnd = |n: u64| -> u32 { seed = seed.wrapping_mul(6364136223846793005).wrapping_add(1442695040888963407); ((seed >> 33) % n) as u32 };
+        let sizes: &[usize] = if deep() { &[11, 12, 15, 16, 17, 19, 20, 21, 22, 24, 31, 32, 33, 40, 48, 63, 64, 65, 100, 127, 128, 129, 200, 256, 257, 513] } else { &[11, 16, 17, 20, 21, 24, 32, 33, 64, 65, 129, 257] };
+        for &n in sizes { for kind in 0..4 {
+            let alpha = (4 * n) as u64;
+            let mut m = Model::new();
+            let mut vals: Vec<u32> = (0..alpha as u32).collect();
+            for i in (1..vals.len()).rev() { let j = rnd(i as u64 + 1) as usize; vals.swap(i, j); }
+            match kind {
+                0 => { let mut i = 0; while m.len() < n { let k = rnd(alpha); if !m.contains_key(&k) { m.insert(k, vals[i]); i += 1; } } }          // injective, random
+                1 => { while m.len() < n { m.insert(rnd(alpha), rnd(alpha / 2)); } }                                                             // not injective (usually)
+                2 => { let ks: Vec<u32> = vals[..n].to_vec(); let mut vs = ks.clone(); for i in (1..n).rev() { let j = rnd(i as u64 + 1) as usize; vs.swap(i, j); } for (k, v) in ks.iter().zip(vs) { m.insert(*k, v); } }   // permutation
+                _ => { let mut ks: Vec<u32> = vals[..n].to_vec(); ks.sort(); for (i, k) in ks.iter().enumerate() { m.insert(*k, 2 * i as u32 + 1); } }                                     // monotone
+            }
+            verif_case(format!("large map: {} entries, kind {}: m={}", n, kind, show(&m)));
+            let s = build(&m);
+            let d = format!("{} entries (kind {}) m={}", n, kind, show(&m));
+            if want("SlotMap::insert") && (pairs(&s) != mpairs(&m) || pairs(&build_rev(&m)) != mpairs(&m)) { fail("SlotMap::insert", "C19:insert.view", format!("building by inserts: {}", d)); }
+            if want("SlotMap::from_pairs") { let mut ps = mpairs(&m); ps.reverse(); let t = SlotMap::from_pairs(&ps); if pairs(&t) != mpairs(&m) || t != s { fail("SlotMap::from_pairs", "C19:from_pairs", format!("{} got {}", d, shows(&t))); } }
+            if want("SlotMap::len") && s.len() != m.len() { fail("SlotMap::len", "C19:len.pairs", d.clone()); }
+            for x in 0..alpha as u32 {
+                if want("SlotMap::get") && s.get(sl(x)) != m.get(&x).map(|v| sl(*v)) { fail("SlotMap::get", "C19:get.view", format!("{} get(${})", d, x)); break; }
+                if want("SlotMap::contains_key") && s.contains_key(sl(x)) != m.contains_key(&x) { fail("SlotMap::contains_key", "C19:contains_key.view", format!("{} contains_key(${})", d, x)); break; }
+            }
+            if want("SlotMap::remove") { for _ in 0..8 { let x = rnd(alpha); let mut t = s.clone(); t.remove(sl(x)); let mut e = m.clone(); e.remove(&x); if pairs(&t) != mpairs(&e) { fail("SlotMap::remove", "C19:remove.view", format!("{} remove(${})", d, x)); } } }
+            if want("SlotMap::insert") { for _ in 0..8 { let (k, v) = (rnd(alpha), rnd(alpha)); let mut t = s.clone(); t.insert(sl(k), sl(v)); let mut e = m.clone(); e.insert(k, v); if pairs(&t) != mpairs(&e) { fail("SlotMap::insert", "C19:insert.view", format!("{} insert(${},${})", d, k, v)); } } }
+            if want("SlotMap::is_bijection") && s.is_bijection() != injective(&m) { fail("SlotMap::is_bijection", "C19:is_bijection.inj", format!("{} got {}", d, s.is_bijection())); }
+            if want("SlotMap::is_perm") {
+                let mut ks: Vec<_> = m.keys().cloned().collect(); let mut vs: Vec<_> = m.values().cloned().collect(); ks.sort(); vs.sort();
+                if s.is_perm() != (injective(&m) && ks == vs) { fail("SlotMap::is_perm", "C19:is_perm.perm", format!("{} got {}", d, s.is_perm())); }
+            }
+            if want("SlotMap::inverse") && injective(&m) {
+                let e: Model = m.iter().map(|(k, v)| (*v, *k)).collect();
+                let t = s.inverse();
+                if pairs(&t) != mpairs(&e) || t != build(&e) { fail("SlotMap::inverse", "C19:inverse.inv", format!("{} inverse got {}", d, shows(&t))); }
+                else if pairs(&t.inverse()) != mpairs(&m) { fail("SlotMap::inverse", "C19:inverse.inv", format!("{} inverse twice", d)); }
+            }
+            if want("SlotMap::keys") { let e: SmallHashSet<Slot> = m.keys().map(|k| sl(*k)).collect(); if s.keys() != e { fail("SlotMap::keys", "C19:keys", d.clone()); } }
+            if want("SlotMap::values") { let e: SmallHashSet<Slot> = m.values().map(|k| sl(*k)).collect(); if s.values() != e { fail("SlotMap::values", "C19:values", d.clone()); } }
+            if want("SlotMap::keys_vec") && s.keys_vec() != m.keys().map(|k| sl(*k)).collect::<Vec<_>>() { fail("SlotMap::keys_vec", "C19:keys_vec", d.clone()); }
+            if want("SlotMap::values_vec") && s.values_vec() != m.values().map(|k| sl(*k)).collect::<Vec<_>>() { fail("SlotMap::values_vec", "C19:values_vec", d.clone()); }
+            if want("SlotMap::identity") { let set: SmallHashSet<Slot> = m.keys().map(|k| sl(*k)).collect(); let e: Model = m.keys().map(|k| (*k, *k)).collect(); if pairs(&SlotMap::identity(&set)) != mpairs(&e) { fail("SlotMap::identity", "C19:identity.view", d.clone()); } }
+            // a second large map over the same alphabet for the binary operations
+            let mut b = Model::new();
+            while b.len() < n { b.insert(rnd(alpha), rnd(alpha)); }
+            let sb = build(&b);
+            let d2 = format!("a: {} b={}", d, show(&b));
+            if want("SlotMap::compose_partial") || want("SlotMap::compose") {
+                let e: Model = m.iter().filter_map(|(x, y)| b.get(y).map(|z| (*x, *z))).collect();
+                if pairs(&s.compose_partial(&sb)) != mpairs(&e) { fail("SlotMap::compose_partial", "C19:compose_partial.view", d2.clone()); }
+                if injective(&m) { let inv: Model = m.iter().map(|(k, v)| (*v, *k)).collect(); let id: Model = m.keys().map(|k| (*k, *k)).collect();
+                    if want("SlotMap::compose") && pairs(&s.compose(&build(&inv))) != mpairs(&id) { fail("SlotMap::compose", "C19:compose.view", format!("{} composed with its inverse is not the identity", d)); } }
+            }
+            if want("SlotMap::try_union") || want("SlotMap::union") {
+                let agree = m.iter().all(|(k, v)| b.get(k).map(|w| w == v).unwrap_or(true));
+                let mut e = m.clone(); for (k, v) in &b { e.insert(*k, *v); }
+                let t = s.try_union(&sb);
+                let ok = match (&t, agree) { (Some(t), true) => pairs(t) == mpairs(&e), (None, false) => true, _ => false };
+                if want("SlotMap::try_union") && !ok { fail("SlotMap::try_union", "C19:try_union", d2.clone()); }
+                // a compatible partner: b restricted to the keys on which it agrees or that a lacks
+                let c: Model = b.iter().filter(|(k, v)| m.get(k).map(|w| w == *v).unwrap_or(true)).map(|(k, v)| (*k, *v)).collect();
+                let mut e = m.clone(); for (k, v) in &c { e.insert(*k, *v); }
+                if want("SlotMap::union") && pairs(&s.union(&build(&c))) != mpairs(&e) { fail("SlotMap::union", "C19:union.view", format!("a: {} b={}", d, show(&c))); }
+                if want("SlotMap::try_union") && s.try_union(&build(&c)).map(|t| pairs(&t)) != Some(mpairs(&e)) { fail("SlotMap::try_union", "C19:try_union", format!("a: {} b={}", d, show(&c))); }
+            }
+        }}
     }
     // binary operations: all pairs (every 7th model on each side in the thorough tier, whose model set is much larger)
     let step = if deep() { 7 } else { 1 };
